@@ -465,6 +465,41 @@ def sPushW (w N : Nat) (s : SStr) (c : Byte) : Except Fault SStr :=
     let d ← wr s.data s.size c
     pure ⟨d, stored w (s.size + 1)⟩
 
+/-- `sstep` of `Model.lean` with a `w`-bit `m_size` -/
+def sstepW (w : Nat) (c : SCfg) (m : SRegs) : SOp → Except Fault (SRegs × SOut)
+  | .ptr r arg =>
+      match decide (r < c.K), m r with
+      | true, none => do
+          let s ← sCtorPtrW w c.N c.junk arg
+          pure (setSReg m r (some s), .unit)
+      | _, _ => .ok (m, .bad)
+  | .ptrlen r arg n =>
+      match decide (r < c.K ∧ c.port = true ∧ n ≤ arg.length), m r with
+      | true, none => do
+          let s ← sCtorPtrLenW w c.N c.junk arg n
+          pure (setSReg m r (some s), .unit)
+      | _, _ => .ok (m, .bad)
+  | .push r ch =>
+      match decide (r < c.K), m r with
+      | true, some s => do
+          let s' ← sPushW w c.N s ch
+          pure (setSReg m r (some s'), .unit)
+      | _, _ => .ok (m, .bad)
+  | .add r ch =>
+      match decide (r < c.K ∧ c.port = true), m r with
+      | true, some s => do
+          let s' ← sPushW w c.N s ch
+          pure (setSReg m r (some s'), .unit)
+      | _, _ => .ok (m, .bad)
+  | op => sstep c m op
+
+def srunW (w : Nat) (c : SCfg) : List SOp → SRegs → Except Fault (SRegs × List SOut)
+  | [], m => .ok (m, [])
+  | op :: ops, m => do
+      let (m', o) ← sstepW w c m op
+      let (m'', os) ← srunW w c ops m'
+      pure (m'', o :: os)
+
 /-- `s[pos]` for ANY `pos ≤ N`: inside `data[N+1]` (the terminator slot included) -/
 def sGetAny (s : SStr) (i : Nat) : Except Fault Byte := rd s.data i
 
